@@ -36,6 +36,7 @@ Definition mark_seen (c : bytes) (st : wst) : wst :=
   {| w_budget := w_budget st; w_seen := c :: w_seen st |}.
 
 Section CWalk.
+  Variable q : quirks.
   Variable c : ctl.
   Variable g : list (bytes * dm).
 
@@ -75,7 +76,7 @@ Section CWalk.
              (rec : wst -> bool -> list bytes -> list seg -> dm -> sel -> list event * outcome * wst)
              (ls : list bytes) (P : list seg) (n : dm) (s : sel)
              (st : wst) (past : bool) (k : seg * dm) : list event * outcome * wst :=
-    match explore s n (fst k) with
+    match explore q s n (fst k) with
     | XPanic => ([], OPanic, st)
     | XErr => ([], OErr WExplore, st)
     | XOk None => ([], OOk, st)
@@ -111,7 +112,7 @@ Section CWalk.
             let vis := if negb past && Nat.ltb (length P) (length (c_start c)) then []
                        else [visit_event P n s ls] in
             if is_container n then
-              let '(e, o, st2) := cloop (cexplore_step (cwalk f') ls P n s) P (children n s) st1 past false in
+              let '(e, o, st2) := cloop (cexplore_step (cwalk f') ls P n s) P (children q n s) st1 past false in
               (vis ++ e, o, st2)
             else (vis, OOk, st1)
         end
